@@ -139,7 +139,27 @@ def sh_switch(n):
             "r2", float(100 + (n // 2 + 100) * 1000 + (n - 1 + 100) * 1000000 - 2), False)
 
 
+def sh_consts_then_inner(n):
+    """n pooled constants in the enclosing code, then inner functions of every kind that use constants of the
+    enclosing pool (first, middle, last) next to constants of their own: each function has its own pool, an index
+    looked up in the wrong pool shows as a wrong operand."""
+    body = " ".join("s = s + %d;" % (1000 + i) for i in range(n))
+    a, b, c = 1000, 1000 + n // 2, 1000 + n - 1
+    inner = (" var ar = () => %d + 7777 + 'qq'.length; var ar2 = (v) => { return v + %d + 6666; }; var fe = function(){ return %d + 8888 + 'w'.length; };"
+             " var cb = [1, 2].map(x => x + %d + 9999)[1]; var nest = function(){ return (() => %d + 5555 + %d)(); };" % (a, b, c, b, c, a))
+    exp = float(sum(1000 + i for i in range(n))) + (a + 7779.0) + (1 + b + 6666.0) + (c + 8889.0) + (2 + b + 9999.0) + (c + 5555.0 + a)
+    return ("var s = 0; " + body + inner, "s + ar() + ar2(1) + fe() + cb + nest()", exp, False)
+
+
+def sh_typeof_undeclared(n):
+    """typeof of an identifier that is mentioned nowhere else, as the very last thing after n pooled constants: its
+    name is the next pool entry and nothing after it can run into the pool limit first."""
+    body = " ".join("s = s + %d;" % (1000 + i) for i in range(n))
+    return ("var s = 0; " + body, "typeof zzNeverDeclared%d" % n, "undefined", False)
+
+
 OPERAND_SHAPES = {
+    "constants-then-inner-functions": sh_consts_then_inner, "typeof-undeclared-after-constants": sh_typeof_undeclared,
     "locals": sh_locals, "params": sh_params, "args": sh_args, "array-literal": sh_array, "object-literal": sh_object,
     "numeric-constants": sh_num_consts, "string-constants": sh_str_consts, "global-names": sh_globals,
     "functions": sh_functions, "captured-vars": sh_captured, "regex-literals": sh_regexes, "switch-cases": sh_switch,
